@@ -19,11 +19,15 @@ var blockedStates = map[string]bool{
 	"chan receive (nil chan)": true, "chan send (nil chan)": true, "select (no cases)": true,
 }
 
+// Blocked reports whether a wait state is one of the blocking states.
+func Blocked(state string) bool { return blockedStates[state] }
+
 // Snapshot is one stop-the-world observation.
 type Snapshot struct {
 	Goroutines int            // goroutines other than the controller
 	Active     int            // of those, not in a blocking wait state
 	States     map[int]string // goroutine id -> wait state
+	Sleepers   int            // > 0: the point was accepted although this many goroutines are in a long timer sleep
 }
 
 var bufPool = make(chan []byte, 4)
@@ -102,9 +106,10 @@ func Snap(self int) Snapshot {
 
 // Stats counts what the detector did (for evidence).
 type Stats struct {
-	Snapshots int64
-	Points    int64 // quiescent points reached
-	Timeouts  int64
+	Snapshots     int64
+	Points        int64 // quiescent points reached
+	Timeouts      int64
+	SleeperPoints int64
 }
 
 // Wait blocks the controller until a quiescent snapshot is observed or the
@@ -114,6 +119,8 @@ func Wait(self int, budget time.Duration, st *Stats) (Snapshot, bool) {
 	deadline := time.Now().Add(budget)
 	spins := 0
 	var prev *Snapshot
+	var sleepSince time.Time
+	var sleepIDs map[int]bool
 	for {
 		runtime.Gosched()
 		sn := Snap(self)
@@ -138,6 +145,23 @@ func Wait(self int, budget time.Duration, st *Stats) (Snapshot, bool) {
 			continue
 		}
 		prev = nil
+		// Long sleepers: if for 1.5 s without interruption the only goroutines that are not blocked are the same
+		// ones asleep in a timer sleep, nothing will run "soon" either (gated scenarios use waits of 0 or 1 hour):
+		// report the point as quiescent and let the caller see the sleepers.
+		if onlySleep(&sn) {
+			if sleepSince.IsZero() || !sameIDs(sleepIDs, &sn) {
+				sleepSince, sleepIDs = time.Now(), idsOf(&sn)
+			} else if time.Since(sleepSince) > 1500*time.Millisecond {
+				if st != nil {
+					st.Points++
+					st.SleeperPoints++
+				}
+				sn.Sleepers = sn.Active
+				return sn, true
+			}
+		} else {
+			sleepSince = time.Time{}
+		}
 		spins++
 		if spins > 400 {
 			time.Sleep(50 * time.Microsecond)
@@ -172,4 +196,39 @@ func pause(d time.Duration) {
 	for time.Since(t) < d {
 		runtime.Gosched()
 	}
+}
+
+func onlySleep(sn *Snapshot) bool {
+	if sn.Active == 0 {
+		return false
+	}
+	for _, s := range sn.States {
+		if s != "sleep" && !blockedStates[s] {
+			return false
+		}
+	}
+	return true
+}
+
+func idsOf(sn *Snapshot) map[int]bool {
+	m := map[int]bool{}
+	for id, s := range sn.States {
+		if s == "sleep" {
+			m[id] = true
+		}
+	}
+	return m
+}
+
+func sameIDs(ids map[int]bool, sn *Snapshot) bool {
+	n := 0
+	for id, s := range sn.States {
+		if s == "sleep" {
+			if !ids[id] {
+				return false
+			}
+			n++
+		}
+	}
+	return n == len(ids)
 }
